@@ -125,6 +125,34 @@ def _subst_node(e, target, repl):
     return new
 
 
+def _inline_locals(fnorm, node, e, depth=8):
+    """`e` as evaluated at `node`, with every plain local replaced by the expression it holds there: its single
+    reaching definition, itself inlined at the defining node (so `x = f(p); x = x.g(); use(x)` reads use(f(p).g())).
+    A parameter stays as its name; a local with several / no followable definitions gets a name no expected form has."""
+    if isinstance(e, ast.Name) and isinstance(e.ctx, ast.Load):
+        ds = fnorm.rd.get(node.id, {}).get(e.id)
+        if not ds:
+            return e                            # not a local of this function (module-level name, builtin)
+        if ds == frozenset([C.PARAM_DEF]) or set(ds) == {C.PARAM_DEF}:
+            return e
+        if depth > 0 and len(ds) == 1:
+            (d,) = tuple(ds)
+            dn = fnorm.cfg.nodes[d]
+            v = fnorm._def_value(dn, e.id)
+            if v is not None:
+                return _inline_locals(fnorm, dn, v, depth - 1)
+        return ast.Name(id=e.id + "__unresolved", ctx=ast.Load())
+    if not isinstance(e, ast.AST):
+        return e
+    new = copy.copy(e)
+    for f, v in ast.iter_fields(e):
+        if isinstance(v, list):
+            setattr(new, f, [_inline_locals(fnorm, node, x, depth) for x in v])
+        elif isinstance(v, ast.AST):
+            setattr(new, f, _inline_locals(fnorm, node, v, depth))
+    return new
+
+
 def _has_ifexp(e):
     return any(isinstance(x, ast.IfExp) for x in own_nodes(e))
 
@@ -422,10 +450,16 @@ def run(ctx: Context):
         sd = idx.func("storage.common:storage_index_to_dir")
         rets = sd.cfg().find(is_return)
         sdn = FlowNorm(sd)
-        r.require(len(rets) == 1 and sdn.norm(rets[0], rets[0].ast.value) in (
-            norm_src("os.path.join(si_b2a(storageindex).decode('ascii')[:2], si_b2a(storageindex).decode('ascii'))"),
-            norm_src("os.path.join(sia[:2], sia)")), sd, sd.loc(),
-            "storage_index_to_dir no longer files a share under the first two base32 characters of its storage index")
+        sd_p = first_positional_params(sd)
+        if len(sd_p) != 1:
+            raise AnchorVanished("storage_index_to_dir(storageindex) signature changed: %s" % sd_p)
+        # the returned path with every local replaced by what it holds there (whatever the locals are called, however
+        # often one name is re-bound): it must be join(<b32>[:2], <b32>) with <b32> = si_b2a(<parameter>).decode('ascii')
+        want_dir = norm_src("os.path.join(si_b2a({0}).decode('ascii')[:2], si_b2a({0}).decode('ascii'))".format(sd_p[0]))
+        got_dir = [norm_plain(_inline_locals(sdn, n, n.ast.value)) if n.ast.value is not None else "None" for n in rets]
+        r.require(got_dir == [want_dir], sd, sd.loc(),
+                  "storage_index_to_dir no longer files a share under the first two base32 characters of its storage index "
+                  "(returns %s)" % ", ".join(got_dir))
         # load_state must come after the prefixes exist and are sorted
         for (n, w) in find_path_avoiding(icfg, has_call_named("self.load_state"),
                                          gate_node=has_call_named("self.prefixes.sort")):
